@@ -135,7 +135,7 @@ def _run_program(spec, result, name):
 
 class C16(object):
     id = "C16"
-    cfg = {"p_sync": 0.1, "p_try": 0.08, "p_ctx": 0.12, "p_sv": 0.06, "p_fault": 0.08, "item_faults": 0.04, "p_dd": 0.12,
+    cfg = {"p_sync": 0.1, "p_try": 0.08, "p_ctx": 0.12, "p_sv": 0.06, "p_fault": 0.08, "item_faults": 0.04, "p_dd": 0.2,
            "max_templates": 5, "max_steps": 3, "max_kinds": 3, "p_debug_kinds": 0.6, "p_item": 0.45, "p_call": 0.4}
 
     def shrink_budget(self, tier):
